@@ -1648,7 +1648,7 @@ Theorem frame : forall H fuel s0 sc prog r vals s2, prog_wf 0 prog ->
   (forall c, c < length (constrs s0) -> constr_of s1 c = constr_of s0 c).
 Proof.
   intros H fuel s0 sc prog r vals s2 Wf R r1 vals1 s1 R1.
-  destruct (history H fuel s0 sc prog Wf R) as (s1' & R1' & E).
+  destruct (history H fuel s0 sc prog r vals s2 Wf R) as (s1' & R1' & E).
   rewrite R1 in R1'. inversion R1'; subst.
   destruct (Ext_frame _ _ _ E) as (a & b & c & _). auto.
 Qed.
@@ -1688,11 +1688,11 @@ Theorem probe_after_history : forall H fuelh fuel sch h p rh vh s0 r vals s2,
     Ext s0 s1 s2 /\ inv s0.
 Proof.
   intros H fuelh fuel sch h p rh vh s0 r vals s2 Wh Wp Rh Rp.
-  destruct (history H fuel s0 (sched s0) p Wp Rp) as (s1 & R1 & E).
+  destruct (history H fuel s0 (sched s0) p r vals s2 Wp Rp) as (s1 & R1 & E).
   exists s1. split; [|split; [exact E|]].
   - replace (mkStore (vars s0) (csets s0) (constrs s0) (sched s0)) with s0 in R1 by (destruct s0; reflexivity).
     exact R1.
-  - apply (engine_inv H fuelh sch h Wh Rh).
+  - apply (proj1 (engine_inv H fuelh sch h Wh Rh)).
 Qed.
 
 (* the same inside one program: h followed by p (p's value indices moved
@@ -1715,4 +1715,28 @@ Proof.
   cbn [map] in K. rewrite app_nil_r, glue_empty_self in K. rewrite K.
   replace (length h) with (length h + 0) at 1 by lia.
   rewrite run_cmds_index, Rp. reflexivity.
+Qed.
+
+(* the pure readers give shift-related results *)
+Lemma readers_G : forall s0 H s, inv s ->
+  (forall t, follow (glue s0 s) (shift_tyv (length (vars s0)) t) = shift_tyv (length (vars s0)) (follow s t)) /\
+  (forall fuel sub aw a b,
+     match_f H fuel (glue s0 s) sub aw (shift_tyv (length (vars s0)) a) (shift_tyv (length (vars s0)) b)
+     = match_f H fuel s sub aw a b) /\
+  (forall fuel a b,
+     occurs_f H fuel (glue s0 s) (shift_tyv (length (vars s0)) a) (shift_tyv (length (vars s0)) b)
+     = occurs_f H fuel s a b) /\
+  (forall fuel t acc,
+     vars_f fuel (glue s0 s) (shift_tyv (length (vars s0)) t) (map (Nat.add (length (vars s0))) acc)
+     = rmap (map (Nat.add (length (vars s0)))) (vars_f fuel s t acc)) /\
+  (forall fuel todo seen, Forall (tsc (length (vars s))) todo ->
+     closure_f fuel (glue s0 s) (map (shift_tyv (length (vars s0))) todo) (map (Nat.add (length (vars s0))) seen)
+     = rmap (map (Nat.add (length (vars s0)))) (closure_f fuel s todo seen)).
+Proof.
+  intros s0 H s I. pose proof (inv_core I) as C. repeat apply conj.
+  - intros t. apply follow_G. exact C.
+  - apply match_f_G. exact C.
+  - apply occurs_f_G. exact C.
+  - apply vars_f_G. exact C.
+  - apply closure_f_G. exact I.
 Qed.
